@@ -2,6 +2,7 @@ package fw
 
 import (
 	"go/ast"
+	"go/token"
 	"go/types"
 	"sort"
 	"strings"
@@ -414,4 +415,127 @@ func SiteLabel(in *Interp) string {
 		return LitLabel(in.FI, l)
 	}
 	return in.FI.Name()
+}
+
+// Guard declares which locks must be held to write / read a struct field.
+// Write and Read are disjunctions of conjunctions of lock ids; an entry "L" means exclusive,
+// for reads a shared hold of the same lock is accepted as well.
+type Guard struct {
+	Pkg, Type, Field string
+	Write            [][]string
+	Read             [][]string
+	// Exempt: function name -> reason (constructors: object not yet shared).
+	Exempt map[string]string
+}
+
+func satisfied(st *State, alts [][]string, sharedOK bool) bool {
+	if len(alts) == 0 {
+		return true
+	}
+	for _, conj := range alts {
+		all := true
+		for _, id := range conj {
+			if !Held(st, id, sharedOK) {
+				all = false
+			}
+		}
+		if all {
+			return true
+		}
+	}
+	return false
+}
+
+// writtenTarget strips index/deref/slice operations from an assignment target.
+func writtenTarget(e ast.Expr) ast.Expr {
+	for {
+		switch x := ast.Unparen(e).(type) {
+		case *ast.IndexExpr:
+			e = x.X
+		case *ast.StarExpr:
+			e = x.X
+		case *ast.SliceExpr:
+			e = x.X
+		default:
+			return ast.Unparen(e)
+		}
+	}
+}
+
+// WriteTargets lists the expressions a node stores into (assignment targets, inc/dec,
+// delete/clear/copy destinations, append-to-self), stripped of index/deref.
+func WriteTargets(info *types.Info, n ast.Node) []ast.Expr {
+	var out []ast.Expr
+	switch x := n.(type) {
+	case *ast.AssignStmt:
+		for _, l := range x.Lhs {
+			out = append(out, writtenTarget(l))
+		}
+	case *ast.IncDecStmt:
+		out = append(out, writtenTarget(x.X))
+	case *ast.CallExpr:
+		switch Builtin(info, x) {
+		case "delete", "clear", "copy":
+			if len(x.Args) > 0 {
+				out = append(out, writtenTarget(x.Args[0]))
+			}
+		}
+	case *ast.RangeStmt:
+		if x.Tok == token.ASSIGN {
+			if x.Key != nil {
+				out = append(out, writtenTarget(x.Key))
+			}
+			if x.Value != nil {
+				out = append(out, writtenTarget(x.Value))
+			}
+		}
+	}
+	return out
+}
+
+// CheckGuards emits one obligation per access of a guarded field. It returns the number of
+// accesses seen per guard (for vacuity checks).
+func (la *LockAnalysis) CheckGuards(r *Run, rule string, guards []Guard) map[string]int {
+	counts := map[string]int{}
+	p := la.Prog
+	la.Visit(func(in *Interp, n ast.Node, st *State) {
+		check := func(sel ast.Expr, write bool) {
+			for _, g := range guards {
+				if !IsFieldSel(in.Info, sel, g.Pkg, g.Type, g.Field) {
+					continue
+				}
+				name := g.Type + "." + g.Field
+				counts[name]++
+				kind := "read"
+				alts := g.Read
+				if write {
+					kind, alts = "write", g.Write
+				}
+				key := SiteLabel(in) + "/" + kind + ":" + name
+				what := kind + " of " + name + " in " + SiteLabel(in)
+				if why, ok := g.Exempt[in.FI.Name()]; ok {
+					r.Pass(rule, key, p.Pos(sel.Pos()), what+" (exempt: "+why+")", false)
+					continue
+				}
+				ok := satisfied(st, alts, !write)
+				r.Check(ok, rule, key, p.Pos(sel.Pos()), what,
+					"required lock(s) "+altString(alts)+" not held on every path to this "+kind+" (held: "+strings.Join(HeldLocks(st), ",")+"; entry set of "+in.FI.Name()+" = ∩ of its call sites)")
+			}
+		}
+		if sel, ok := n.(*ast.SelectorExpr); ok {
+			check(sel, false)
+		}
+		for _, t := range WriteTargets(in.Info, n) {
+			check(t, true)
+		}
+	})
+	return counts
+}
+
+func altString(alts [][]string) string {
+	var parts []string
+	for _, c := range alts {
+		parts = append(parts, strings.Join(c, "∧"))
+	}
+	return strings.Join(parts, " ∨ ")
 }
